@@ -34,7 +34,9 @@ Fixpoint indices_where (f : row -> bool) (tbl : list row) (i : Z) : list Z :=
   end.
 
 (* The rows that matter, as the table extraction saw them at the pinned commit
-   05808245 (+ the C01 fix), recorded by hand from coq/Gen/C07_Bindings.v:
+   05808245 (before /repo commit cbe0478 "fix: KeyBindings.add ignored
+   save_before when given an existing Binding"), recorded by hand from the
+   coq/Gen/C07_Bindings.v of that tree:
      0  <any>      named_commands.self_insert            (1, 0, 1)
      1  c-h        named_commands.backward_delete_char   (1, 0, 2)
      2  delete     named_commands.delete_char            (1, 0, 3)
@@ -43,13 +45,13 @@ Fixpoint indices_where (f : row -> bool) (tbl : list row) (i : Z) : list Z :=
      5  <any>      vi._insert_text_multiple_cursors      (2, 0, 6)
    basic.py asks for save_before=if_no_repeat on rows 0-2 and emacs.py for
    save_before=(lambda e: False) on row 3, but KeyBindings.add, when handed an
-   existing Binding (get_by_name(..)), builds the new Binding with
-   save_before=func.save_before and drops its own argument. *)
+   existing Binding (get_by_name(..)), built the new Binding with
+   save_before=func.save_before and dropped its own argument. *)
 Definition pinned_rows : list row :=
   [(1, 0, 1); (1, 0, 2); (1, 0, 3); (1, 1, 5); (0, 1, 4); (2, 0, 6)].
 
-(* What those rows become once KeyBindings.add honours its save_before
-   argument (fixes/C07-add-keeps-save-before.patch). *)
+(* What those rows are now that KeyBindings.add honours its save_before
+   argument (cbe0478); the live table is Gen/C07_Bindings.v. *)
 Definition fixed_rows : list row :=
   [(2, 0, 1); (2, 0, 2); (2, 0, 3); (0, 1, 5); (0, 1, 4); (2, 0, 6)].
 
